@@ -22,6 +22,7 @@ func init() {
 	core.RaceLockMarkers = []string{"SentenceInTx", "DoTransaction", "ExecuteRemoteTransactionWithCtx", "(*TransactionDatatype).Rollback"}
 	core.Register(&core.Prop{
 		ID:          "C20",
+		MaxBatch: 60,
 		Level:       "exploration",
 		Workers:     4,
 		Race:        true,
